@@ -205,6 +205,23 @@ def build_program(ch, fault_src, place, syntax):
         planted = lay.oneline(fault_src)
         lay.sep()
         lay.toks("catch 'never' 0 finally def w = 2 ; end")
+    elif place == "function2":
+        # fault inside fq, which is called from gq, which is called at top
+        lay.toks("def fq ( p ) do")
+        for k in range(ch.int(0, 2)):
+            filler(lay, 20 + k)
+        planted = lay.oneline(fault_src)
+        lay.sep()
+        lay.toks("end ;")
+        lay.toks("def gq ( x ) do")
+        for k in range(ch.int(0, 2)):
+            filler(lay, 40 + k)
+        inner_call = lay.oneline("fq ( x )")
+        lay.sep()
+        lay.toks("end ;")
+        for k in range(ch.int(0, 2)):
+            filler(lay, 30 + k)
+        call_line = {"fq(": inner_call, "gq(": lay.oneline("gq ( 1 )")}
     else:  # function
         lay.toks("def fq ( p ) do")
         for k in range(ch.int(0, 2)):
@@ -247,18 +264,22 @@ def prog_prop(text, planted, call_line, syntax, name=NAME):
                        f"starts on line {planted}")
     if call_line is not None and not syntax:
         st = out[5].stacktrace
-        entries = [s for s in st if s.startswith("fq(")]
-        if not entries:
-            return Finding("C20|stacktrace-missing-entry",
-                           f"{text!r}: stack trace {st!r}")
-        m2 = LINE_RE.search(entries[0])
-        if not m2 or (name + ":") not in entries[0]:
-            return Finding("C20|stacktrace-entry-without-position",
-                           f"{text!r}: entry {entries[0]!r}")
-        if int(m2.group(1)) != call_line:
-            return Finding("C20|stacktrace-line",
-                           f"{text!r}: entry {entries[0]!r}, the call is on "
-                           f"line {call_line}")
+        wanted = call_line if isinstance(call_line, dict) \
+            else {"fq(": call_line}
+        for prefix, line in wanted.items():
+            entries = [s for s in st if s.startswith(prefix)]
+            if not entries:
+                return Finding("C20|stacktrace-missing-entry",
+                               f"{text!r}: stack trace {st!r} has no entry "
+                               f"for {prefix}..)")
+            m2 = LINE_RE.search(entries[0])
+            if not m2 or (name + ":") not in entries[0]:
+                return Finding("C20|stacktrace-entry-without-position",
+                               f"{text!r}: entry {entries[0]!r}")
+            if int(m2.group(1)) != line:
+                return Finding("C20|stacktrace-line",
+                               f"{text!r}: entry {entries[0]!r}, the call is "
+                               f"on line {line}")
     return None
 
 
@@ -384,7 +405,8 @@ def part_token_matrix(part):
 
 
 def part_programs(part, n):
-    places = ["top", "block", "loop", "catchall", "function", "function"]
+    places = ["top", "block", "loop", "catchall", "function", "function",
+              "function2"]
 
     def body(tape):
         ch = TapeChooser(tape)
